@@ -138,3 +138,280 @@ Proof.
 Qed.
 
 End C17.
+
+(** *** the whole fixed-method list corresponds position by position *)
+
+(** [a] (option on) against [b] (option off): the same item, or the same item with the same core text re-wrapped in
+    the curled outer parts *)
+Definition curl_rel (p t : str) (a b : rank) : Prop :=
+  a = b \/ exists s, rstr b = p ++ s ++ t /\ a = set_rstr b (map curl_open p ++ s ++ map curl_close t).
+
+Lemma set_rstr_same x : set_rstr x (rstr x) = x. Proof. destruct x; reflexivity. Qed.
+Lemma set_rstr_twice x s s' : set_rstr (set_rstr x s) s' = set_rstr x s'. Proof. destruct x; reflexivity. Qed.
+Lemma rank_le_retext a b s s' : rank_le (set_rstr a s) (set_rstr b s') = rank_le a b.
+Proof. unfold rank_le. destruct a, b; reflexivity. Qed.
+
+Lemma curl_rel_retext p t a b : curl_rel p t a b -> exists s, a = set_rstr b s.
+Proof. intros [->|(s & _ & ->)]; [exists (rstr b); symmetry; apply set_rstr_same | eauto]. Qed.
+
+Lemma curl_rel_le p t a b a' b' : curl_rel p t a b -> curl_rel p t a' b' -> rank_le a a' = rank_le b b'.
+Proof. intros H H'. apply curl_rel_retext in H, H'. destruct H as [s ->], H' as [s' ->]. apply rank_le_retext. Qed.
+
+Lemma insert_rel p t x y : curl_rel p t x y -> forall l l', Forall2 (curl_rel p t) l l' -> Forall2 (curl_rel p t) (insert_rank x l) (insert_rank y l').
+Proof.
+  intros Hxy l l' F. induction F as [|a b l l' Hab F IH]; cbn [insert_rank]; [constructor; [exact Hxy | constructor]|].
+  rewrite (curl_rel_le p t a b x y Hab Hxy). destruct (rank_le b y); [constructor; [exact Hab | exact IH] | constructor; [exact Hxy | constructor; assumption]].
+Qed.
+
+Lemma sort_rel p t l l' : Forall2 (curl_rel p t) l l' -> Forall2 (curl_rel p t) (sort_ranks l) (sort_ranks l').
+Proof.
+  unfold sort_ranks. assert (G : Forall2 (curl_rel p t) (@nil rank) []) by constructor. revert G. generalize (@nil rank) at 1 3. generalize (@nil rank).
+  intros acc' acc G F. revert acc acc' G. induction F as [|x y l l' Hxy F IH]; intros acc acc' G; cbn [fold_left]; [exact G|].
+  apply IH. apply insert_rel; assumption.
+Qed.
+
+Lemma firstn_rel {A B} (R : A -> B -> Prop) n : forall l l', Forall2 R l l' -> Forall2 R (firstn n l) (firstn n l').
+Proof. induction n as [|n IH]; intros l l' F; [constructor|]. destruct F; cbn [firstn]; constructor; auto. Qed.
+
+Lemma map_nil_iff {A B} (f : A -> B) l : map f l = [] <-> l = [].
+Proof. destruct l; cbn; split; congruence. Qed.
+
+Section C17F.
+Variable Q : oracles.
+
+Lemma fixed_l3_rel c buffer typed :
+  sp_word (split buffer true) <> [] ->
+  Forall2 (curl_rel (sp_pre (split buffer true)) (sp_trail (split buffer true)))
+          (ds_l3 Q (xwith_smart c true) buffer typed) (ds_l3 Q (xwith_smart c false) buffer typed).
+Proof.
+  intros Hw. unfold ds_l3, ds_word, ds_first, ds_last, ds_sp. cbn [x_smart xwith_smart x_ansi x_opts].
+  destruct (split buffer true) as [[p w] t]. unfold sp_word, sp_pre, sp_trail in *. cbn [fst snd] in *.
+  rewrite smart_quoter_word by exact Hw. cbn [fst snd].
+  set (l1 := dedup_ranks _).
+  assert (A : Forall2 (curl_rel p t) (match map curl_open p, map curl_close t with [], [] => l1 | _, _ => map (wrap (map curl_open p) (map curl_close t)) l1 end)
+                                     (match p, t with [], [] => l1 | _, _ => map (wrap p t) l1 end)).
+  { assert (W : Forall2 (curl_rel p t) (map (wrap (map curl_open p) (map curl_close t)) l1) (map (wrap p t) l1)).
+    { induction l1 as [|x r IH]; cbn [map]; constructor; [|exact IH]. right. exists (rstr x). split; [apply rstr_wrap|].
+      unfold wrap. rewrite set_rstr_twice. reflexivity. }
+    destruct p, t; cbn [map]; try exact W. clear W. induction l1; constructor; [left; reflexivity | assumption]. }
+  destruct (x_ansi c); [exact A|]. destruct (emoticon Q typed).
+  - apply Forall2_app; [exact A|]. constructor; [left; reflexivity | constructor].
+  - destruct (emoji_bn Q _) as [es|]; [|exact A]. apply Forall2_app; [exact A|].
+    generalize 1. induction es as [|e es IH]; intros r; cbn [emoji_ranked]; constructor; [|apply IH].
+    right. exists e. split; reflexivity.
+Qed.
+
+(** every candidate with the option on is the candidate at the same position with it off, its core text re-wrapped in
+    the curled outer parts; the emoticon's emoji and the raw key text are identical in both lists *)
+Lemma fixed_lists_correspond c buffer typed :
+  sp_word (split buffer true) <> [] ->
+  Forall2 (curl_rel (sp_pre (split buffer true)) (sp_trail (split buffer true)))
+          (dictionary_suggestion Q (xwith_smart c true) buffer typed) (dictionary_suggestion Q (xwith_smart c false) buffer typed).
+Proof.
+  intros Hw. rewrite !ds_eq. unfold x_english_on. cbn [x_english x_ansi xwith_smart].
+  pose proof (sort_rel _ _ _ _ (fixed_l3_rel c buffer typed Hw)) as S.
+  destruct (x_english c && negb (x_ansi c) && negb (str_eqb buffer typed)); apply Forall2_app; try (apply firstn_rel; exact S).
+  - constructor; [left; reflexivity | constructor].
+  - constructor.
+Qed.
+
+End C17F.
+
+(** *** the whole phonetic list, under the one condition the duplicate check brings in *)
+Section C17P.
+Variable Q : oracles.
+
+Lemma push_checked_rel p t x l l' :
+  Forall2 (curl_rel p t) l l' -> rank_mem x l = rank_mem x l' -> Forall2 (curl_rel p t) (push_checked l x) (push_checked l' x).
+Proof.
+  intros F E. unfold push_checked. rewrite E. destruct (rank_mem x l'); [exact F|]. apply Forall2_app; [exact F|]. constructor; [left; reflexivity | constructor].
+Qed.
+
+Lemma phon_l0_rel c m uac term :
+  sp_word (split term false) <> [] ->
+  Forall2 (curl_rel (sg_pre Q (with_smart c false) term) (sg_tr Q (with_smart c false) term))
+          (sg_l0 Q (with_smart c true) m uac term) (sg_l0 Q (with_smart c false) m uac term).
+Proof.
+  intros Hw. destruct (l0_on_off Q c m uac term Hw) as (A & B). cbn zeta in A, B. rewrite A, B.
+  set (p := sg_pre Q (with_smart c false) term). set (t := sg_tr Q (with_smart c false) term). set (core := swd_core Q m uac _).
+  assert (W : Forall2 (curl_rel p t) (map (wrap (map curl_open p) (map curl_close t)) core) (map (wrap p t) core)).
+  { induction core as [|x r IH]; cbn [map]; constructor; [|exact IH]. right. exists (rstr x). split; [apply rstr_wrap|].
+    unfold wrap. rewrite set_rstr_twice. reflexivity. }
+  destruct p, t; try exact W. clear W. induction core; constructor; [left; reflexivity | assumption].
+Qed.
+
+(** the three places where the two settings could part: the two comparisons of the raw text with the leading part
+    (which is curled in one setting) and the two duplicate checks of the raw text against the list (whose texts are
+    curled in one setting) *)
+Record same_checks (c : pcfg) (m : memo) (uac : list (str * str)) (term : str) : Prop := {
+  sc_pre : str_eqb term (sg_pre Q (with_smart c true) term) = str_eqb term (sg_pre Q (with_smart c false) term);
+  sc_l0 : rank_mem (RLast term 1) (sg_l0 Q (with_smart c true) m uac term) = rank_mem (RLast term 1) (sg_l0 Q (with_smart c false) m uac term);
+  sc_l1 : rank_mem (RLast term 3) (fst (sg_l1 Q (with_smart c true) m uac term)) = rank_mem (RLast term 3) (fst (sg_l1 Q (with_smart c false) m uac term))
+}.
+
+Lemma phon_l1_rel c m uac term :
+  sp_word (split term false) <> [] -> same_checks c m uac term ->
+  Forall2 (curl_rel (sg_pre Q (with_smart c false) term) (sg_tr Q (with_smart c false) term))
+          (fst (sg_l1 Q (with_smart c true) m uac term)) (fst (sg_l1 Q (with_smart c false) m uac term))
+  /\ snd (sg_l1 Q (with_smart c true) m uac term) = snd (sg_l1 Q (with_smart c false) m uac term).
+Proof.
+  intros Hw [Hp H0 _]. pose proof (phon_l0_rel c m uac term Hw) as F0. destruct (parts_on_off Q c term Hw) as (Ep & Ew & Et).
+  unfold sg_l1. cbn [c_ansi with_smart]. destruct (c_ansi c); [split; [exact F0 | reflexivity]|].
+  destruct (emoticon Q term) as [e|].
+  - cbn [fst snd]. split; [|reflexivity]. rewrite Hp. apply Forall2_app; [|constructor; [left; reflexivity | constructor]].
+    destruct (str_eqb term (sg_pre Q (with_smart c false) term)); [exact F0|]. apply push_checked_rel; assumption.
+  - rewrite Ew. destruct (emoji_name Q (sg_word Q (with_smart c false) term)) as [es|]; cbn [fst snd]; [|split; [exact F0 | reflexivity]].
+    split; [|reflexivity]. apply Forall2_app; [exact F0|]. rewrite Ep, Et.
+    generalize 1. induction es as [|e es IH]; intros r; cbn [emoji_ranked]; constructor; [|apply IH].
+    right. exists e. split; reflexivity.
+Qed.
+
+(** every candidate with the option on is the candidate at the same position with it off, re-wrapped in the curled
+    outer parts, or identical (the raw typed text, the emoticon's emoji) *)
+Lemma phon_lists_correspond c m uac sels term :
+  sp_word (split term false) <> [] -> same_checks c m uac term ->
+  let '(_, l_on, _, _) := suggest Q (with_smart c true) m uac sels term in
+  let '(_, l_off, _, _) := suggest Q (with_smart c false) m uac sels term in
+  Forall2 (curl_rel (sg_pre Q (with_smart c false) term) (sg_tr Q (with_smart c false) term)) l_on l_off.
+Proof.
+  intros Hw SC. rewrite !suggest_eq. apply sort_rel. destruct (phon_l1_rel c m uac term Hw SC) as (F1 & E1).
+  destruct SC as [Hp _ H1]. unfold sg_l2.
+  destruct (sg_l1 Q (with_smart c true) m uac term) as [l1 a1], (sg_l1 Q (with_smart c false) m uac term) as [l1' a1']. cbn [fst snd] in *. subst a1'.
+  unfold english_on. cbn [c_english c_ansi with_smart]. rewrite Hp.
+  destruct (c_english c && negb (c_ansi c) && negb a1 && negb (str_eqb term (sg_pre Q (with_smart c false) term))); [|exact F1].
+  apply push_checked_rel; assumption.
+Qed.
+
+End C17P.
+
+(** *** preselection: the same index in both settings *)
+
+(** the relation again, saying which items may be identical in both lists *)
+Definition curl_rel_id (Id : rank -> Prop) (p t : str) (a b : rank) : Prop :=
+  (a = b /\ Id b) \/ exists s, rstr b = p ++ s ++ t /\ a = set_rstr b (map curl_open p ++ s ++ map curl_close t).
+
+Lemma curl_rel_id_weaken Id p t a b : curl_rel_id Id p t a b -> curl_rel p t a b.
+Proof. intros [[-> _]|H]; [left; reflexivity | right; exact H]. Qed.
+
+Lemma insert_rel_id Id p t x y : curl_rel_id Id p t x y -> forall l l', Forall2 (curl_rel_id Id p t) l l' -> Forall2 (curl_rel_id Id p t) (insert_rank x l) (insert_rank y l').
+Proof.
+  intros Hxy l l' F. induction F as [|a b l l' Hab F IH]; cbn [insert_rank]; [constructor; [exact Hxy | constructor]|].
+  rewrite (curl_rel_le p t a b x y (curl_rel_id_weaken _ _ _ _ _ Hab) (curl_rel_id_weaken _ _ _ _ _ Hxy)).
+  destruct (rank_le b y); [constructor; [exact Hab | exact IH] | constructor; [exact Hxy | constructor; assumption]].
+Qed.
+
+Lemma sort_rel_id Id p t l l' : Forall2 (curl_rel_id Id p t) l l' -> Forall2 (curl_rel_id Id p t) (sort_ranks l) (sort_ranks l').
+Proof.
+  unfold sort_ranks. assert (G : Forall2 (curl_rel_id Id p t) (@nil rank) []) by constructor. revert G. generalize (@nil rank) at 1 3. generalize (@nil rank).
+  intros acc' acc G F. revert acc acc' G. induction F as [|x y l l' Hxy F IH]; intros acc acc' G; cbn [fold_left]; [exact G|].
+  apply IH. apply insert_rel_id; assumption.
+Qed.
+
+Lemma rewrap_self x : exists s, rstr x = [] ++ s ++ [] /\ x = set_rstr x (map curl_open [] ++ s ++ map curl_close []).
+Proof. exists (rstr x). cbn [map app]. rewrite app_nil_r. split; [reflexivity | symmetry; apply set_rstr_same]. Qed.
+
+Lemma find_pos_rel (R : rank -> rank -> Prop) tgt tgt' :
+  (forall a b, R a b -> str_eqb (rstr a) tgt = str_eqb (rstr b) tgt') ->
+  forall l l', Forall2 R l l' -> forall k, find_pos tgt l k = find_pos tgt' l' k.
+Proof.
+  intros H l l' F. induction F as [|a b l l' Hab F IH]; intros k; cbn [find_pos]; [reflexivity|].
+  rewrite (H a b Hab). destruct (str_eqb (rstr b) tgt'); [reflexivity | apply IH].
+Qed.
+
+Lemma wrap_inj' (f l a b : str) : f ++ a ++ l = f ++ b ++ l -> a = b.
+Proof. intros E. apply app_inv_head in E. apply app_inv_tail in E. exact E. Qed.
+
+Lemma str_eqb_neq a b : a <> b -> str_eqb a b = false.
+Proof. intros H. destruct (str_eqb a b) eqn:E; [apply str_eqb_eq in E; contradiction | reflexivity]. Qed.
+
+Lemma str_eqb_wrap p t a b : str_eqb (p ++ a ++ t) (p ++ b ++ t) = str_eqb a b.
+Proof.
+  destruct (str_eqb a b) eqn:E.
+  - apply str_eqb_eq in E. subst. apply str_eqb_refl.
+  - destruct (str_eqb (p ++ a ++ t) (p ++ b ++ t)) eqn:E'; [|reflexivity]. apply str_eqb_eq in E'. apply wrap_inj' in E'. subst. rewrite str_eqb_refl in E. discriminate.
+Qed.
+
+Section C17S.
+Variable Q : oracles.
+
+Definition phon_id (term : str) (b : rank) : Prop := rstr b = term \/ emoticon Q term = Some (rstr b).
+
+Lemma push_checked_rel_id (Id : rank -> Prop) p t x l l' :
+  Id x -> Forall2 (curl_rel_id Id p t) l l' -> rank_mem x l = rank_mem x l' -> Forall2 (curl_rel_id Id p t) (push_checked l x) (push_checked l' x).
+Proof.
+  intros I F E. unfold push_checked. rewrite E. destruct (rank_mem x l'); [exact F|]. apply Forall2_app; [exact F|]. constructor; [left; split; [reflexivity | exact I] | constructor].
+Qed.
+
+Lemma phon_l0_rel_id c m uac term :
+  sp_word (split term false) <> [] ->
+  Forall2 (curl_rel_id (phon_id term) (sg_pre Q (with_smart c false) term) (sg_tr Q (with_smart c false) term))
+          (sg_l0 Q (with_smart c true) m uac term) (sg_l0 Q (with_smart c false) m uac term).
+Proof.
+  intros Hw. destruct (l0_on_off Q c m uac term Hw) as (A & B). cbn zeta in A, B. rewrite A, B.
+  set (p := sg_pre Q (with_smart c false) term). set (t := sg_tr Q (with_smart c false) term). set (core := swd_core Q m uac _).
+  assert (W : Forall2 (curl_rel_id (phon_id term) p t) (map (wrap (map curl_open p) (map curl_close t)) core) (map (wrap p t) core)).
+  { induction core as [|x r IH]; cbn [map]; constructor; [|exact IH]. right. exists (rstr x). split; [apply rstr_wrap|].
+    unfold wrap. rewrite set_rstr_twice. reflexivity. }
+  destruct p, t; try exact W. clear W. induction core as [|x r IH]; constructor; [right; apply rewrap_self | exact IH].
+Qed.
+
+Lemma phon_lists_correspond_id c m uac sels term :
+  sp_word (split term false) <> [] -> same_checks Q c m uac term ->
+  let '(_, l_on, _, _) := suggest Q (with_smart c true) m uac sels term in
+  let '(_, l_off, _, _) := suggest Q (with_smart c false) m uac sels term in
+  Forall2 (curl_rel_id (phon_id term) (sg_pre Q (with_smart c false) term) (sg_tr Q (with_smart c false) term)) l_on l_off.
+Proof.
+  intros Hw [Hp H0 H1]. rewrite !suggest_eq. apply sort_rel_id.
+  pose proof (phon_l0_rel_id c m uac term Hw) as F0. destruct (parts_on_off Q c term Hw) as (Ep & Ew & Et).
+  assert (F1 : Forall2 (curl_rel_id (phon_id term) (sg_pre Q (with_smart c false) term) (sg_tr Q (with_smart c false) term))
+                 (fst (sg_l1 Q (with_smart c true) m uac term)) (fst (sg_l1 Q (with_smart c false) m uac term))
+               /\ snd (sg_l1 Q (with_smart c true) m uac term) = snd (sg_l1 Q (with_smart c false) m uac term)).
+  { unfold sg_l1. cbn [c_ansi with_smart]. destruct (c_ansi c); [split; [exact F0 | reflexivity]|].
+    destruct (emoticon Q term) as [e|] eqn:Ee.
+    - cbn [fst snd]. split; [|reflexivity]. rewrite Hp. apply Forall2_app; [|constructor; [left; split; [reflexivity | right; exact Ee] | constructor]].
+      destruct (str_eqb term (sg_pre Q (with_smart c false) term)); [exact F0|]. apply push_checked_rel_id; [left; reflexivity | assumption | assumption].
+    - rewrite Ew. destruct (emoji_name Q (sg_word Q (with_smart c false) term)) as [es|]; cbn [fst snd]; [|split; [exact F0 | reflexivity]].
+      split; [|reflexivity]. apply Forall2_app; [exact F0|]. rewrite Ep, Et.
+      generalize 1. induction es as [|e es IH]; intros r; cbn [emoji_ranked]; constructor; [|apply IH].
+      right. exists e. split; reflexivity. }
+  destruct F1 as (F1 & E1). unfold sg_l2.
+  destruct (sg_l1 Q (with_smart c true) m uac term) as [l1 a1], (sg_l1 Q (with_smart c false) m uac term) as [l1' a1']. cbn [fst snd] in *. subst a1'.
+  unfold english_on. cbn [c_english c_ansi with_smart]. rewrite Hp.
+  destruct (c_english c && negb (c_ansi c) && negb a1 && negb (str_eqb term (sg_pre Q (with_smart c false) term))); [|exact F1].
+  apply push_checked_rel_id; [left; reflexivity | assumption | assumption].
+Qed.
+
+(** the text the selection looks for (a function of the word and the learned selections only) *)
+Definition selected_text (sels : list (str * str)) (w : str) : str :=
+  match assocS w sels with
+  | Some item => item
+  | None => if Nat.leb 2 (length w) then sel_by_suffix Q sels w (seq 1 (length w - 1)) else []
+  end.
+
+(** same preselected index, provided neither the raw text nor the emoticon's emoji is itself the text looked for *)
+Lemma phon_preselection_same c m uac sels term :
+  sp_word (split term false) <> [] -> same_checks Q c m uac term ->
+  (forall x b, x = term \/ emoticon Q term = Some x ->
+     x <> sg_pre Q (with_smart c b) term ++ selected_text sels (sg_word Q (with_smart c false) term) ++ sg_tr Q (with_smart c b) term) ->
+  let '(_, _, _, s_on) := suggest Q (with_smart c true) m uac sels term in
+  let '(_, _, _, s_off) := suggest Q (with_smart c false) m uac sels term in
+  s_on = s_off.
+Proof.
+  intros Hw SC Hx. pose proof (phon_lists_correspond_id c m uac sels term Hw SC) as F. rewrite !suggest_eq in *.
+  destruct (parts_on_off Q c term Hw) as (Ep & Ew & Et).
+  unfold prev_selection. fold (selected_text sels (sg_word Q (with_smart c true) term)). fold (selected_text sels (sg_word Q (with_smart c false) term)).
+  rewrite Ew.
+  pose proof (fun x I => Hx x true I) as N1. pose proof (fun x I => Hx x false I) as N2. cbv beta in N1, N2. clear Hx.
+  rewrite Ep, Et in *.
+  remember (selected_text sels (sg_word Q (with_smart c false) term)) as sel eqn:Esel.
+  remember (sg_pre Q (with_smart c false) term) as p eqn:Edp. remember (sg_tr Q (with_smart c false) term) as t eqn:Edt.
+  assert (K : forall a b, curl_rel_id (phon_id term) p t a b ->
+              str_eqb (rstr a) (map curl_open p ++ sel ++ map curl_close t) = str_eqb (rstr b) (p ++ sel ++ t)).
+  { intros a b [[-> I]|(s0 & Eb & ->)].
+    - assert (I' : rstr b = term \/ emoticon Q term = Some (rstr b)) by exact I.
+      rewrite (str_eqb_neq _ _ (N1 _ I')), (str_eqb_neq _ _ (N2 _ I')). reflexivity.
+    - rewrite rstr_set, Eb, !str_eqb_wrap. reflexivity. }
+  rewrite (find_pos_rel _ _ _ K _ _ F O). reflexivity.
+Qed.
+
+End C17S.
